@@ -31,7 +31,7 @@ theorem Step_createFirstSegment {st : State} {L : Nat} (h : GI st L) (hn : (st.s
 
 theorem Step_rotateParts {st : State} {L : Nat} (h : GI st L) (hv : st.cfg.variant ≠ .mpegts) (d : Int) :
     Step st (rotateParts st d) L := by
-  obtain ⟨hg, hf, hlen, hL⟩ := GI_rotateParts h hv d
+  obtain ⟨hg, hf, hlen, hL, _⟩ := GI_rotateParts h hv d
   refine ⟨hg, hf.cfg, hlen, ?_⟩
   rw [hL, rpS_targetDur]; exact Int.le_refl _
 
@@ -53,7 +53,7 @@ theorem rsS_targetDur_mono (v n s c d ntp f) : s.targetDur ≤ (rsS v n s c d nt
 
 theorem Step_rotateSegments {st : State} {L : Nat} (h : GI st L) (d n : Int) (f : Bool) :
     Step st (rotateSegments st d n f) L := by
-  obtain ⟨hg, hf, hlen, hL⟩ := GI_rotateSegments h d n f
+  obtain ⟨hg, hf, hlen, hL, _⟩ := GI_rotateSegments h d n f
   refine ⟨hg, hf.cfg, hlen, ?_⟩
   rw [hL]; exact rsS_targetDur_mono ..
 
